@@ -101,7 +101,7 @@ def main():
         "hooks": {
             "guard": "verif",
             "enable": "no source hooks in /repo: harnesses and interception hooks are injected with go/packages overlays (executor) and go test -overlay (native replay); -tags verif is passed",
-            "baseline_off_cmd": "cd /repo/pkg/go && GOFLAGS=-mod=mod GOPROXY=off GOSUMDB=off go test -vet=off -count=1 -timeout 25m ./...",
+            "baseline_off_cmd": "cd /repo/pkg/go && GOFLAGS=-mod=mod GOPROXY=off GOSUMDB=off GOTOOLCHAIN=local go test -vet=off -count=1 -timeout 25m ./...",
             "source_commits": [],
             "add_only": True,
         },
